@@ -3,7 +3,12 @@ use crate::function::InnerFunction;
 use crate::value::Value;
 use core::clone::Clone;
 use std::collections::HashMap;
+#[cfg(not(feature = "verif_sim"))]
 use std::sync::{Arc, Mutex};
+#[cfg(feature = "verif_sim")]
+use crate::verif_sync::Mutex;
+#[cfg(feature = "verif_sim")]
+use std::sync::Arc;
 
 #[derive(Clone)]
 pub enum ContextValue {
